@@ -25,12 +25,16 @@ const REJECTS: &[(&str, &str)] = &[
 /// hand-written line material around the generated steps: aliases, functions over aliases, destructuring, shadowing, imports
 fn extra_lines(rng: &mut Rng, k: usize) -> Vec<String> {
     let t = format!("t{}", k);
-    match rng.below(7) {
+    match rng.below(9) {
         0 => vec![format!("'{} = A['int] | B['bin] | C", t), format!("f{} = #'{} {{ | =A[n] => n | =B[b] => b __binary_length__ | 0 }}", k, t), format!("[A[{}] f{}, B[0x0102] f{}, C f{}]", rng.range(0, 9), k, k, k)],
         1 => vec![format!("[a{}, b{}] = [{}, 0x0{}]", k, k, rng.range(0, 99), rng.below(9)), format!("[a{}, b{} __binary_length__] __integer_add__", k, k)],
         2 => vec![format!("s{} = {}", k, rng.range(0, 9)), format!("s{} = [s{}, s{}]", k, k, k), format!("s{} = [s{}.0, 1] __integer_add__", k, k), format!("s{}", k)],
         3 => vec![format!("m{} = %lib", k), format!("[m{}.k, 5 m{}.inc]", k, k), format!("(inc) = %lib, {} inc", rng.range(0, 9))],
         4 => vec![format!("c{} = {}", k, rng.range(1, 9)), format!("g{} = #'int {{ [~, c{}] __integer_multiply__ }}", k, k), format!("c{} = 100", k), format!("{} g{}", rng.range(0, 9), k)],
+        // a line that short-circuits to nil before one of its bindings is stored; the session must survive it
+        6 => vec![format!("n{} = {}", k, rng.range(0, 9)), format!("p{} = 1, {} =2, q{} = 3", k, rng.range(3, 9), k), format!("n{}", k), format!("[n{}, 1] __integer_add__", k)],
+        // an alias-only line between a value and a line that uses the previous result
+        7 => vec![format!("{}", rng.range(1, 50)), format!("'u{} = 'int", k), "[~, 1] __integer_add__".to_string()],
         5 => vec![format!("[%lib2.k, {} %lib2.inc]", rng.range(0, 9)), format!("[{}, 2] %int.div", rng.range(2, 40)), "Cons[1, Cons[2, Nil]] %list.head".to_string()],
         _ => vec![format!("{}", rng.range(1, 50)), "[~, 1] __integer_add__".to_string(), "[~, ~]".to_string()],
     }
@@ -63,6 +67,7 @@ pub fn check(rep: &Report) {
         sess.sim.set_logging(false);
         sess.sim.heap_monitor = true;
         let mut accepted: Vec<String> = vec![];
+        let mut after_nil = false;
         let transcript = std::cell::RefCell::new(Vec::<serde_json::Value>::new());
         let viol = |kind: &str, what: String| rep.violation(Violation { signature: format!("C11:{}", kind), what, witness: json!({"workers": workers, "strategy": format!("{:?}", strat), "transcript": *transcript.borrow()}) });
         watch.enter(j, &lines.iter().map(|l| l.0.clone()).collect::<Vec<_>>().join(" ⏎ "));
@@ -80,6 +85,7 @@ pub fn check(rep: &Report) {
                     if sess.repl.get_variables() != vars_before { viol("rejected-line-changed-variables", format!("after the rejected line {:?} the session's variables changed: {:?} -> {:?}", line, vars_before, sess.repl.get_variables())); break; }
                     // if the same text is also rejected as part of the whole program, fine; if the single program accepts it, the
                     // REPL and the compiler disagree on acceptance
+                    if after_nil { continue; }
                     let joined = if accepted.is_empty() { line.clone() } else { format!("{}\n{}", accepted.join("\n"), line) };
                     // recorded finding: the REPL types the previous result with the nil a single program would have short-circuited on
                     if qv::compile_with(&joined, Some(modules.clone()), &b).is_ok() && line.contains('~') && format!("{:?}", out).contains("| [])") { viol("previous-result-keeps-nil-in-its-type", format!("the REPL rejected {:?} ({:?}) although the previous result was not nil and the same lines compile as one program", line, out)); break; }
@@ -89,6 +95,7 @@ pub fn check(rep: &Report) {
                 _ => {}
             }
             if *expect_reject { viol("accepted-a-line-that-should-be-rejected", format!("line {:?} was accepted: {:?}", line, out)); break; }
+            if after_nil { rep.eval(1); rep.count("lines_after_a_nil_line_checked_for_liveness", 1); if matches!(out, LineOutcome::RuntimeError(_)) { break; } continue; }
             accepted.push(line.clone());
             // reference: all accepted lines as one program
             let joined = accepted.join("\n");
@@ -103,8 +110,9 @@ pub fn check(rep: &Report) {
             };
             if !agree { viol("line-differs-from-joined-program", format!("line {:?} gave {:?} in the REPL; the program of all lines so far gives {:?}", line, out, reference)); break; }
             if matches!(out, LineOutcome::RuntimeError(_)) { rep.count("sessions_ended_by_a_runtime_error", 1); break; }
-            // a nil line would short-circuit the single program: the comparison ends here
-            if matches!(&out, LineOutcome::Value(v) if v.is_nil()) { rep.count("sessions_ended_by_a_nil_line", 1); break; }
+            // a nil line would short-circuit the single program: the value comparison ends here, but the session itself must go
+            // on working — the remaining lines are evaluated for liveness only (no trouble, no environment error, heap invariants)
+            if matches!(&out, LineOutcome::Value(v) if v.is_nil()) { rep.count("sessions_with_a_nil_line", 1); after_nil = true; }
             if line.contains(" = ") && accepted.iter().filter(|a| a.split(" = ").next() == line.split(" = ").next()).count() > 1 { rep.count("shadowing_lines", 1); }
             if line.starts_with('~') || line.contains("[~") { rep.count("lines_using_the_previous_result", 1); }
         }
@@ -135,4 +143,4 @@ fn rename(src: &str, salt: usize) -> String {
 
 pub const RULE: &str = "for every session: each accepted line's REPL outcome == the outcome of the single program consisting of all accepted lines so far (value with function indices erased / runtime error), until a line evaluates to nil; a rejected line (injected parse and compile errors, or a generated line the compiler rejects) leaves get_variables() unchanged and is also rejected as the tail of the single program; heap invariants hold after every scheduler action of the session";
 pub const ASSUME: &[&str] = &["lines come from the C02 generator's top-level steps (1-3 steps per line, renamed apart), hand-written alias / destructuring / shadowing / import / closure-capture / previous-result lines, and injected rejected lines", "sessions run on 1-3 workers under eager, uniform and lazy schedules with mixed quanta"];
-pub const SITUATIONS: &[&str] = &["lines_compared_with_the_joined_program", "injected_rejected_lines", "alias_only_lines", "shadowing_lines", "lines_using_the_previous_result", "heap_checks_during_sessions", "workers=1", "workers=3"];
+pub const SITUATIONS: &[&str] = &["lines_compared_with_the_joined_program", "injected_rejected_lines", "alias_only_lines", "shadowing_lines", "lines_using_the_previous_result", "lines_after_a_nil_line_checked_for_liveness", "heap_checks_during_sessions", "workers=1", "workers=3"];
